@@ -148,6 +148,32 @@ def obsOf (m : MState) : Args :=
     | none => [("uninit", "1")]
     | some s => [("admins", joinC s.admins), ("mutable", toString s.mutable)]
 
+/-! ## Re-synchronisation -/
+
+/-- Inverse of `renderCw2` (`none`: not of that shape). -/
+def parseCw2 (s : String) : Option (Option Cw1Subkeys.Cw2) :=
+  if s == "-" then some none else
+  match s.splitOn "/" with
+  | [n, v] => some (some ⟨n, if v == "?" then none else parseSemVer v⟩)
+  | _ => none
+
+/-- The whole model state is in the observation: admin list and `mutable`; for subkeys the raw allowance
+map (`rallow`, a storage range read), the permissions (`lperm`, the complete paged listing) and the cw2
+item.  Block and pool stay. -/
+def resyncOf (m : MState) (o : Args) : Option MState :=
+  if (o.get "uninit").isSome then some { m with wl := none, sk := none }
+  else if o.str "admins" == "?" then none
+  else
+    let cfg : Cw1Whitelist.AdminList := ⟨o.list "admins", o.str "mutable" == "true"⟩
+    if m.sub then do
+      let cw2 ← parseCw2 (o.str "cw2")
+      let allowances : AMap Addr Allowance :=
+        ((o.list "rallow").filterMap parseAllowEntry).foldl (fun acc (k, v) => acc.set k v) []
+      let permissions : AMap Addr Permissions :=
+        ((o.list "lperm").filterMap parsePermEntry).foldl (fun acc (k, v) => acc.set k v) []
+      pure { m with sk := some { cfg, allowances, permissions, cw2 } }
+    else pure { m with wl := some cfg }
+
 def err (m : MState) (tag : String) : MState × StepResult := (m, { ok := some false, tag := tag })
 
 def parseSkMsg (kind : String) (a : Args) : Option Cw1Subkeys.Msg :=
@@ -544,6 +570,7 @@ def wlScen : Scen MState Mon where
   obs := obsOf
   monInit _ := { sub := false }
   monitor := monitorOp
+  resync := some resyncOf
 
 def skScen : Scen MState Mon where
   init h := { sub := true, pool := h.list "pool" }
@@ -551,5 +578,6 @@ def skScen : Scen MState Mon where
   obs := obsOf
   monInit _ := { sub := true }
   monitor := monitorOp
+  resync := some resyncOf
 
 end CwPlus.Driver.Cw1
